@@ -17,6 +17,7 @@ Tables (input flags -> output):
   critRows  (kind, r)             -> attribute among the optimistic columns  [_construct_optimistic_criteria_]
                                      kind 0 int, 1 float, 2 float optimistic=True, 3 int optimistic=False
   exemptRows (sessOpt, forUpdate) -> the UPDATE carries the criterion of a read attribute   [_save_updated_]
+  markRowsT (w, vol, rOther)      -> (rbit of a, rbit of another attribute) after `_set_rbits((obj,), {a})`   [EntityMeta._set_rbits]
 The introspection runs in a subprocess with PYTHONPATH=<repo>.
 """
 import json, os, subprocess, sys
@@ -41,7 +42,7 @@ def introspect():
     with db_session:
         db.execute("insert into P (id, z, p, q, fl, fo, io) values (1, 1, 3, 3, 1.5, 1.5, 3)")
         db.execute("insert into P (id, z, p, q, fl, fo, io) values (2, 1, NULL, NULL, 1.5, 1.5, 3)")
-    out = {'get': [], 'set': [], 'dbset': [], 'save': [], 'crit': [], 'exempt': [], 'errors': []}
+    out = {'get': [], 'set': [], 'dbset': [], 'save': [], 'crit': [], 'exempt': [], 'mark': [], 'errors': []}
 
     def bit(a): return P._bits_[a]
 
@@ -55,6 +56,16 @@ def introspect():
                     obj._rbits_ = 0
                     getattr(obj, name)
                     out['get'].append([[w, vol, wother], bool(obj._rbits_ & bit(a))])
+                    rollback()
+    for w in B:
+        for vol in B:
+            for rother in B:            # [_set_rbits] as called by _fetch_objects / _find_in_cache_ with the attributes a query used
+                with db_session:
+                    obj = P[1]; name = 'q' if vol else 'p'; a = getattr(P, name)
+                    if w: setattr(obj, name, 5)
+                    obj._rbits_ = bit(P.io) if rother else 0
+                    P._set_rbits((obj,), {a: 3})
+                    out['mark'].append([[w, vol, rother], [bool(obj._rbits_ & bit(a)), bool(obj._rbits_ & bit(P.io))]])
                     rollback()
     for r in B:
         for w in B:
@@ -145,6 +156,8 @@ def render(f):
     L.append('def critRows : List ((Nat × Bool) × Bool) := [' + ', '.join('((%d, %s), %s)' % (k[0], lb(k[1]), lb(v)) for k, v in f['crit']) + ']')
     L.append('/-- (db_session optimistic, object in cache.for_update) ↦ the UPDATE carries the criterion of a read attribute -/')
     L.append('def exemptRows : List ((Bool × Bool) × Bool) := [' + ', '.join('((%s, %s), %s)' % (lb(k[0]), lb(k[1]), lb(v)) for k, v in f['exempt']) + ']')
+    L.append('/-- (wbit, volatile, read bit of another attribute) ↦ (read bit, read bit of the other attribute) after `_set_rbits((obj,), {a})` -/')
+    L.append('def markRowsT : List ((Bool × Bool × Bool) × (Bool × Bool)) := [' + ', '.join('((%s, %s, %s), (%s, %s))' % (lb(k[0]), lb(k[1]), lb(k[2]), lb(v[0]), lb(v[1])) for k, v in f['mark']) + ']')
     L += ['', 'end PonyVerif.Gen.OccTable', '']
     return '\n'.join(L)
 
